@@ -1,3 +1,161 @@
 import FiberModel.DriverUtil
--- stub driver for C03; replaced when the property's model lands
-def main : IO Unit := pure ()
+import FiberModel.C03.Known
+/-
+Driver for C03. Case fields (after the id):
+  cfg(3 bits)  toks(`;`-separated L<hex> | N<hex> | O<hex> | S | P)  vals(hexlist)  path(hex)  implObs
+implObs = C02 dispatch observation ++ ";rpm=0|1|panic".
+-/
+open B DriverUtil C02 C03
+
+namespace C03Driver
+
+def parseTok (s : String) : Option Tok :=
+  match s.toList with
+  | ['S'] => some .star
+  | ['P'] => some .plus
+  | k :: rest =>
+    match fromHexAux rest with
+    | some t => if t.isEmpty then none
+                else if k == 'L' then some (.lit t) else if k == 'N' then some (.named t false)
+                else if k == 'O' then some (.named t true) else none
+    | none => none
+  | [] => none
+
+def parseToks (s : String) : Option Pat := (s.splitOn ";").mapM parseTok
+
+def renderObs (o : Obs) : String :=
+  if o.panic then "panic"
+  else if o.ran == 0 then s!"ran=0;st={o.status}"
+  else s!"ran={o.ran};st={o.status};path={toHexField o.path};rpath={toHexField o.rpath};" ++
+       s!"names={hexListField o.names};vals={hexListField o.vals}"
+
+def renderRpm : Option Bool → String
+  | none => "panic" | some true => "1" | some false => "0"
+
+def parseObs3 (s : String) : Option Obs3 :=
+  let kv := (s.splitOn ";").filterMap fun p => match p.splitOn "=" with
+    | [k, v] => some (k, v) | _ => none
+  let get (k : String) : Option String := (kv.find? (·.1 == k)).map (·.2)
+  do
+    let rpm ← match ← get "rpm" with
+      | "1" => some (some true) | "0" => some (some false) | "panic" => some none | _ => none
+    if s.startsWith "panic" then pure { disp := { panic := true }, rpm := rpm }
+    else
+      let ran ← (← get "ran").toNat?
+      let st ← (← get "st").toNat?
+      if ran == 0 then pure { disp := { ran := 0, status := st }, rpm := rpm }
+      else pure { disp := { ran := ran, status := st, path := ← (get "path").bind fromHex,
+                            rpath := ← (get "rpath").bind fromHex, names := ← (get "names").bind hexList,
+                            vals := ← (get "vals").bind hexList }, rpm := rpm }
+
+def serve (cfg : Config) (pattern reqPath : Bytes) : Obs :=
+  match register cfg false pattern with
+  | none => { panic := true }
+  | some r =>
+    let (path, det) := configDependentPaths cfg reqPath
+    match dispatch1 (fun _ _ => true) r det path with
+    | none => { ran := 0, status := 404 }
+    | some vals =>
+      { ran := 1, status := 200, path := path, rpath := r.pathRaw, names := r.params,
+        vals := r.params.map (paramsLookup cfg r.params vals) }
+
+def parseCfg (s : String) : Option Config :=
+  match s.toList with
+  | [a, b, c] =>
+    if [a, b, c].all (fun x => x == '0' || x == '1') then
+      some { caseSensitive := a == '1', strictRouting := b == '1', unescapePath := c == '1' }
+    else none
+  | _ => none
+
+/-- does the pattern carry a constraint the model cannot evaluate without a verdict table? -/
+def hasAbstract (segs : List Seg) : Bool :=
+  segs.any fun s => s.constraints.any fun c =>
+    c.id == .float || c.id == .guid || ((c.id == .datetime || c.id == .regex) && !c.data.isEmpty)
+
+/-- run-time validation of the two parser hypotheses of `rpm_eq_single_route_dispatch`: the pattern
+    as written and the routed pattern agree on having parameters; a root pattern declares none -/
+def hypViolated (cfg : Config) (pattern : Bytes) : Bool :=
+  match register cfg false pattern with
+  | some r => ((r.params.length > 0) != (r.parser.params.length > 0)) || (r.root && r.parser.params.length > 0)
+  | none => false
+
+/-- raw-pattern stream: arbitrary pattern text (C02's grammar); only the clause
+    "RoutePatternMatch answers exactly as dispatching to an app holding only that route". -/
+def handleRaw (id : String) (cfg : Config) (patHex path impl : String) : Except String Verdict := do
+  let some pat := fromHexAux patHex.toList | throw "outside-domain: raw pattern"
+  let some path := fromHex path | throw "outside-domain: path"
+  unless path.headD 0 == SLASH && !(path.take 2 == [SLASH, SLASH]) && !path.contains 63 && !path.contains 35 do
+    throw "outside-domain: request path must start with one '/', no query/fragment"
+  let some io := parseObs3 impl | throw "outside-domain: observation"
+  let chk := checkConstraint [] (fun _ _ => false)
+  let routed := (parseRoute (prettyPattern cfg pat)).map (·.segs)
+  let nonAscii := path.any (· ≥ 128)
+  let outside : Bool := match routed with
+    | some segs => hasAbstract segs || (nonAscii && segs.any fun s => s.constraints.any (·.id == .alpha))
+    | none => false
+  let mo : Obs := match register cfg false pat with
+    | none => { panic := true }
+    | some r =>
+      let (upath, det) := configDependentPaths cfg path
+      match dispatch1 chk r det upath with
+      | none => { ran := 0, status := 404 }
+      | some vals => { ran := 1, status := 200, path := upath, rpath := r.pathRaw, names := r.params,
+                       vals := r.params.map (paramsLookup cfg r.params vals) }
+  let mrpm := routePatternMatch chk cfg path pat
+  let modelObs := renderObs mo ++ ";rpm=" ++ renderRpm mrpm
+  let spec : Option String :=
+    if io.disp.panic then (if io.rpm == none then none else some "rpm-eq-dispatch (registration panics, RoutePatternMatch answers)")
+    else if io.rpm != some (io.disp.ran == 1) then some "rpm-eq-dispatch" else none
+  let hv := hypViolated cfg pat
+  pure { id := id, modelObs := if hv then "hyp-violated:" ++ modelObs else if outside then impl else modelObs,
+         implObs := impl, spec := spec,
+         tags := ["raw", if io.disp.ran == 1 then "ran" else "notran"] ++
+                 (if io.disp.ran == 1 then ["nt-raw-match"] else []) ++ (if outside then ["outside-model"] else []) }
+
+def handleCase (f : List String) : Except String Verdict := do
+  match f with
+  | [id, cfg, toks, vals, path, impl] =>
+    let some cfg := parseCfg cfg | throw "outside-domain: cfg"
+    if toks.startsWith "X" then return ← handleRaw id cfg ((toks.drop 1).toString) path impl
+    let some p := parseToks toks | throw "outside-domain: toks"
+    let some vals := hexList vals | throw "outside-domain: vals"
+    let some path := fromHex path | throw "outside-domain: path"
+    unless path.headD 0 == SLASH && !(path.take 2 == [SLASH, SLASH]) && !path.contains 63 && !path.contains 35 do
+      throw "outside-domain: request path must start with one '/', no query/fragment"
+    -- the token list must be the structured form of its own text (no special bytes in literals,
+    -- alphanumeric names, no adjacent literals, leading '/')
+    unless WFPat p do throw "outside-domain: token list is not a well-formed pattern"
+    let names := p.filterMap fun t => match t with | .named n _ => some n | _ => none
+    unless (names.map toLower).eraseDups.length == names.length do throw "outside-domain: duplicate names"
+    unless vals.length == (p.filter (·.isParam)).length do throw "outside-domain: one value per parameter"
+    let some io := parseObs3 impl | throw "outside-domain: observation"
+    let pattern := patText p
+    let mo := serve cfg pattern path
+    let mrpm := routePatternMatch (fun _ _ => true) cfg path pattern
+    let modelObs := renderObs mo ++ ";rpm=" ++ renderRpm mrpm
+    -- correspondence of the structured view with the parser: segsOf (token list) = parseRoute (text)
+    let structOK := match segsOf p, parseRoute pattern with
+      | some a, some b => a == b.segs
+      | none, none => true
+      | _, _ => false
+    let spec := specViolation cfg p vals path io
+    let applies := completenessApplies cfg p vals path
+    let known : Option String :=
+      if (spec == some "fill-matches" || spec == some "params-return-values") && Known.K1 cfg p vals
+      then some "K1" else none
+    let greedyMid := (foldPat cfg p).zip ((foldPat cfg p).drop 1) |>.any fun (a, b) => a.isGreedy && !b.isParam
+    let tags := [if Delimited p then "delimited" else "not-delimited",
+                 if io.disp.ran == 1 then "ran" else "notran"] ++
+                (if applies then ["nt-complete"] else []) ++
+                (if applies && greedyMid then ["nt-greedy-mid"] else []) ++
+                (if applies && !greedyOnce cmpOfConst (foldPat cfg p) (foldVals cfg vals) then ["nt-greedy-iib"] else []) ++
+                (if !applies && io.disp.ran == 1 then ["nt-rpm-match"] else []) ++
+                (if structOK then [] else ["struct-mismatch"])
+    pure { id := id, modelObs := if hypViolated cfg pattern then "hyp-violated:" ++ modelObs
+                                 else if structOK then modelObs else "struct-mismatch:" ++ modelObs, implObs := impl,
+           spec := spec, known := known, tags := tags }
+  | _ => throw s!"outside-domain: expected 6 fields, got {f.length}"
+
+end C03Driver
+
+def main : IO Unit := run C03Driver.handleCase
